@@ -374,6 +374,9 @@ pub struct Engine<'a> {
     /// keep exploring behind a state in which the real trees differ from the model (the difference is reported where it arises);
     /// the model stays authoritative, so that what the difference leads to is seen as well (C19: a lost faucet marker -> a replay)
     pub continue_after_mismatch: bool,
+    /// a refused batch is followed: the search goes on from the state object the refused call was made on (the model is where it
+    /// was), not from a pristine copy - whatever a refusal leaves behind in fields no header commits to is met by what follows
+    pub follow_rejected: bool,
 }
 
 pub enum StepOut {
@@ -422,7 +425,7 @@ fn err_name(e: &StateError) -> &'static str {
 
 impl<'a> Engine<'a> {
     pub fn new(run: &'a Run) -> Self {
-        Engine { run, check_conservation: true, check_backing: true, continue_after_mismatch: false }
+        Engine { run, check_conservation: true, check_backing: true, continue_after_mismatch: false, follow_rejected: false }
     }
 
     pub fn step(&self, n: &Node, a: &Action) -> StepOut {
@@ -552,6 +555,21 @@ impl<'a> Engine<'a> {
                         format!("rejected batch [{}] changed the state after [{}]", label, n.path_str()),
                         n.replay_json(Some(a)),
                     );
+                    if after.header.stakes_hash != before.header.stakes_hash {
+                        run.violation(
+                            "C13",
+                            "stake-commitment-changed-by-a-refused-batch".into(),
+                            format!("the refused batch [{}] changed the stake commitment after [{}]: the header commits to a stake that was never accepted", label, n.path_str()),
+                            n.replay_json(Some(a)),
+                        );
+                    }
+                }
+                if self.follow_rejected && mres.is_err() {
+                    // both sides refuse: go on from the very state object the refused call was made on
+                    run.outcome("batch:refused-and-followed");
+                    let mut c = n.child(Real::Open(next.clone()), n.model.clone(), a);
+                    c.salt = 2 + (blake3::hash(err_name(&e).as_bytes()).as_bytes()[0] % 6);
+                    return StepOut::Next(c);
                 }
                 if mres.is_ok() {
                     run.outcome(&format!("batch:stricter-than-model:{}", err_name(&e)));
